@@ -40,8 +40,9 @@ func (c *celValidator) Validate() string {
 	// Convert CEL expression to Go expression at generation time
 	goExpr, err := c.convertCELToGo(c.expression, fieldName)
 	if err != nil {
-		// Fallback to comment if conversion fails
-		return fmt.Sprintf("true /* CEL conversion failed: %v */", err)
+		// An expression that cannot be translated must stop generation. Emitting
+		// `if true` instead would compile and report the CEL error for every value.
+		panic(fmt.Sprintf("govalid: cel marker on field %s.%s: %v", c.structName, fieldName, err))
 	}
 	// Return the converted Go expression wrapped in negation for validation
 	return fmt.Sprintf("!(%s)", goExpr)
